@@ -1,6 +1,6 @@
 // Command dnssec binds spec/Dnssec.tla to RRSIG.Sign / RRSIG.Verify (property C10).
 //
-//	dnssec record <layout> <events.ndjson> <keys.json> <n> <alg,alg,...> <flipEvery> [onlyCase]
+//	dnssec record <layout> <events.ndjson> <keys.json> <n>[+<nbig>] <alg,alg,...> <flipEvery> [onlyCase]
 //	        seeded RRsets x algorithms -> real Sign -> "sign" events, plus "check" events: the variants to verify
 //	        (reordered, repeated, re-cased, wildcard-expanded, altered field by field, RRSIG / DNSKEY RDATA bit by bit, forged)
 //	dnssec finish <layout> <events.ndjson> <emit.ndjson> <keys.json> <verify.ndjson>
@@ -354,10 +354,10 @@ type event struct {
 	Sig      *rec   `json:"sig,omitempty"`
 	Forge    bool   `json:"forge"`
 	Rawtag   string `json:"rawtag"` // "" | "raw-utf8" | "raw-nonutf8": every name of the case is spelled with RAW octets >= 0x80 instead of \DDD
-	Spell    string `json:"spell"` // "" | "ddd-upper": owner names spelled with \DDD for capital letters (same octets)
+	Spell    string `json:"spell"`  // "" | "ddd-upper": owner names spelled with \DDD for capital letters (same octets)
 	KeyName  string `json:"keyname"`
 	Otherkey bool   `json:"otherkey"` // forge: the signature is made with the case's private key although `key' is another key (sigok false is expected)
-	Signer   string `json:"signer"` // "" | "ecdsa-short-r1" ...: how the signature was (or is to be) made
+	Signer   string `json:"signer"`   // "" | "ecdsa-short-r1" ...: how the signature was (or is to be) made
 	Data     hx.B   `json:"data"`
 	Odata    hx.B   `json:"odata"` // the specification's octets and the real signature of the sign event this variant derives from
 	Osig     hx.B   `json:"osig"`
@@ -381,7 +381,9 @@ func toB(n name) []hx.B {
 	return out
 }
 
-func be32(v uint32) hx.B { return hx.B{int(v >> 24), int(v >> 16 & 255), int(v >> 8 & 255), int(v & 255)} }
+func be32(v uint32) hx.B {
+	return hx.B{int(v >> 24), int(v >> 16 & 255), int(v >> 8 & 255), int(v & 255)}
+}
 
 func clone[T any](v *T) *T { return wire.Normalize(v) }
 
@@ -702,6 +704,140 @@ type caseT struct {
 	mixed  bool
 	keyIdx int
 	rawtag string // "" or how the names of the case are spelled in Go strings (raw octets >= 0x80)
+	big    int    // > 0: a case of the large-record universe; the wire length (owner + 10 + RDATA) of its large record
+}
+
+// ------------------------------------------------------------------ the universe of LARGE records
+//
+// A record may be as large as its RDLENGTH allows (65535 octets of RDATA); the canonical form of RFC 4034 s.6.2 has no
+// other limit.  The lengths that matter to an implementation are those of the buffers it might pack a record into: the
+// library's MinMsgSize (512), DefaultMsgSize (4096) and MaxMsgSize (65535), and other round numbers -- each with its two
+// neighbours.  Length = owner name + 10 + RDATA of the record, uncompressed (= what rawSignatureData packs).
+var bigQuick = [][]int{
+	{4097},                               // every run: one octet more than DefaultMsgSize
+	{4096, 4095},                         // by seed: exactly DefaultMsgSize, one less
+	{8193, 16385, 5003, 12289, 32769, 0}, // by seed: well beyond (0: RDATA of 65535 octets, the most an RR can hold)
+	{513, 512, 511, 1233, 2049, 767},     // by seed: around MinMsgSize and other small round sizes (no other case has records > 200 octets)
+}
+var bigThorough = []int{4097, 4096, 4095, 8193, 513, 512, 511, 16385, 1233, 2049, 32769, 65535, 65536, 65534, 8192, 16384, 32768, 0 /* RDATA of 65535 */, 4098, 1025}
+
+// the types of the large record: TXT (many strings), an unknown type (RFC 3597: opaque), DNSKEY (a long key), SIG (a signer name
+// that is lower-cased in the canonical form, then a long signature)
+var bigTypes = []int{16, 65000, 48, 24}
+
+func (g *gen) bigCase(j int) caseT {
+	c := caseT{}
+	seed := int(hx.Seed() / 1000)
+	var target int
+	if hx.Thorough() {
+		target = bigThorough[(j+int(hx.Seed()%1000))%len(bigThorough)]
+	} else {
+		l := bigQuick[j%len(bigQuick)]
+		target = l[(seed+j/len(bigQuick))%len(l)]
+	}
+	c.t = bigTypes[(j+seed)%len(bigTypes)]
+	c.zone = zones[[]int{0, 1, 3}[(j+seed)%3]]
+	c.mixed = j%2 == 0
+	c.okind = "large"
+	c.owner = append(name{[]byte("big")}, c.zone...)
+	if c.mixed {
+		c.owner = append(name{[]byte("Big")}, c.zone...)
+	}
+	ow := len(encName(c.owner))
+	if target == 0 {
+		target = ow + 10 + 65535
+	}
+	c.big = target
+	rdlen := target - ow - 10
+	mk := func(f wire.Fields) wire.RR {
+		rr := wire.RR{Name: toB(c.owner), Type: c.t, Class: 1, Ttl: be32(3600), F: f}
+		return *clone(&rr)
+	}
+	small := mk(g.sized(c.t, c.zone, c.mixed, 0))
+	large := mk(g.sized(c.t, c.zone, c.mixed, rdlen))
+	switch j % 3 {
+	case 0:
+		c.rrset = []wire.RR{small, large}
+	case 1:
+		c.rrset = []wire.RR{large, small}
+	default: // two large records that agree but for the last octet: the order is decided at the very end
+		twin := clone(&large)
+		flipLast(twin)
+		c.rrset = []wire.RR{large, small, *twin}
+	}
+	c.origT = []uint32{0, 300}[j%2]
+	c.inc, c.exp = 1700000000, 2000000000
+	return c
+}
+
+// sized draws the RDATA of type t (one of bigTypes) with exactly rdlen octets on the wire (rdlen 0: a small one).
+func (g *gen) sized(t int, z name, mixed bool, rdlen int) wire.Fields {
+	fill := func(n int) hx.B {
+		alpha := "abzABZ09 .;\"\\\x00\xff"
+		b := make(hx.B, n)
+		for i := range b {
+			b[i] = int(alpha[g.r.Intn(len(alpha))])
+		}
+		return b
+	}
+	switch t {
+	case 16:
+		if rdlen == 0 {
+			return wire.Fields{"Txt": []hx.B{fill(5)}}
+		}
+		var ss []hx.B
+		rem := rdlen
+		if rem%256 == 1 && rem > 1 { // the last string is never empty (flipLast)
+			ss = append(ss, fill(253))
+			rem -= 254
+		}
+		for rem > 0 {
+			n := rem - 1
+			if n > 255 {
+				n = 255
+			}
+			ss = append(ss, fill(n))
+			rem -= n + 1
+		}
+		return wire.Fields{"Txt": ss}
+	case 48:
+		if rdlen == 0 {
+			rdlen = 4 + 32
+		}
+		return wire.Fields{"Flags": 257, "Protocol": 3, "Algorithm": 8, "PublicKey": g.octets(rdlen-4, rdlen-4)}
+	case 24:
+		signer := g.nameUnder(z, mixed)
+		if rdlen == 0 {
+			rdlen = 18 + len(encName(signer)) + 64
+		}
+		return wire.Fields{"TypeCovered": 1, "Algorithm": 8, "Labels": 2, "OrigTtl": be32(300), "Expiration": be32(2000000000), "Inception": be32(1700000000),
+			"KeyTag": 4711, "SignerName": toB(signer), "Signature": g.octets(rdlen-18-len(encName(signer)), rdlen-18-len(encName(signer)))}
+	default:
+		if rdlen == 0 {
+			rdlen = 7
+		}
+		return wire.Fields{"Rdata": g.octets(rdlen, rdlen)}
+	}
+}
+
+// flipLast changes the last octet of the record's RDATA (its last field is an octet string or a list of strings).
+func flipLast(a *wire.RR) {
+	es := L.FieldsOf(a.Type)
+	e := es[len(es)-1]
+	if e.K == "strs" {
+		ss := seqOf(a.F[e.N])
+		last := bytesOf(ss[len(ss)-1])
+		if len(last) == 0 {
+			hx.Die("flipLast: empty last string")
+		}
+		last[len(last)-1] ^= 0x01
+		ns := append([]interface{}{}, ss[:len(ss)-1]...)
+		a.F[e.N] = append(ns, anyBytes(last))
+		return
+	}
+	b := bytesOf(a.F[e.N])
+	b[len(b)-1] ^= 0x01
+	a.F[e.N] = anyBytes(b)
 }
 
 func (g *gen) newCase(i int) caseT {
@@ -1050,7 +1186,7 @@ func withTag(s *rec, k *rec) *rec {
 	return s2
 }
 
-func record(out, keysPath string, n int, algs []string, flipEvery, only int) {
+func record(out, keysPath string, n, nbig int, algs []string, flipEvery, only int) {
 	g := &gen{hx.Rand()}
 	w := hx.NewWriter(out)
 	defer w.Close()
@@ -1071,6 +1207,16 @@ func record(out, keysPath string, n int, algs []string, flipEvery, only int) {
 			continue
 		}
 		rc.one(i, &c, alg, privs, sub, flipEvery > 0 && i%flipEvery == 0)
+	}
+	// the large-record universe: cases n .. n+nbig-1, drawn from a generator of their own (the stream above stays as it is)
+	for j := 0; j < nbig; j++ {
+		i := n + j
+		bg := &gen{mrand.New(mrand.NewSource(hx.Seed()*104729 + int64(j)))}
+		c := bg.bigCase(j)
+		if only >= 0 && only != i {
+			continue
+		}
+		rc.one(i, &c, algs[i%len(algs)], privs, mrand.New(mrand.NewSource(hx.Seed()*7919+int64(i))), false)
 	}
 	sum.Evaluations = rc.counts["sign"]
 	sum.Note("events", rc.counts)
@@ -1107,7 +1253,9 @@ func (rc *recorder) one(ci int, c *caseT, alg string, privs map[string]crypto.Si
 		p := hx.Catch(func() { e = sg.Sign(signer, set) })
 		return sg, e, p
 	}
-	rc.special(ci, c, alg, priv, key, req, doSign)
+	if c.big == 0 {
+		rc.special(ci, c, alg, priv, key, req, doSign)
+	}
 	sig, err, pan := doSign(req, priv)
 	if pan != "" {
 		rc.sum.Mis("dnssec/sign-panic:"+L.Mnemonic(c.t), "Sign panicked: "+pan, map[string]interface{}{"case": ci, "alg": alg})
@@ -1137,7 +1285,64 @@ func (rc *recorder) one(ci int, c *caseT, alg string, privs map[string]crypto.Si
 	outRec := projSig(sig)
 	ev.Out = outRec
 	of := rc.emit(ev)
+	if c.big > 0 {
+		rc.bigVariants(of, ci, c, alg, outRec, key)
+		return
+	}
 	rc.variants(of, ci, c, alg, privs, outRec, key, r, flips)
+}
+
+// bigVariants: what is asked of an RRset with a large record -- it verifies, in any order, with a record repeated, under other
+// TTLs and another owner case; it does not once the LAST octet of the large record, or the first, is another or the large
+// record is missing; a signature made by the standard library over the specification's octets verifies.
+func (rc *recorder) bigVariants(of, ci int, c *caseT, alg string, sig, key *rec) {
+	chk := func(kind string, s *rec, rs []wire.RR, forge bool) {
+		rc.emit(&event{Ev: "check", Of: of, Kind: kind, Alg: alg, Case: ci, Rrset: rs, Key: key, Sig: s, Forge: forge, KeyName: alg})
+	}
+	base := c.rrset
+	n := len(base)
+	li := 0 // the large record
+	for i := range base {
+		if len(fmt.Sprint(base[i].F)) > len(fmt.Sprint(base[li].F)) {
+			li = i
+		}
+	}
+	chk("orig", sig, base, false)
+	rev := cloneSet(base)
+	for i, j := 0, n-1; i < j; i, j = i+1, j-1 {
+		rev[i], rev[j] = rev[j], rev[i]
+	}
+	chk("order", sig, rev, false)
+	chk("repeated", sig, append(cloneSet(base), *clone(&base[li])), false)
+	{
+		rs := cloneSet(base)
+		s := clone(sig)
+		s.Owner = toB(swapCase(c.owner))
+		for i := range rs {
+			rs[i].Name = toB(swapCase(c.owner))
+			rs[i].Ttl = be32(uint32(7 + i))
+		}
+		chk("owner-case", s, rs, false)
+	}
+	{
+		rs := cloneSet(base)
+		flipLast(&rs[li])
+		chk("rdata-last-octet", sig, rs, false)
+	}
+	{
+		rs := cloneSet(base)
+		var rest []wire.RR
+		for i := range rs {
+			if i != li {
+				rest = append(rest, rs[i])
+			}
+		}
+		chk("record-dropped", sig, rest, false)
+	}
+	f := clone(sig)
+	f.F["Signature"] = []interface{}{}
+	chk("forge", f, base, true)
+	chk("forge-shuffled", f, append(cloneSet(base)[n/2:], cloneSet(base)[:n/2]...), true)
 }
 
 // special: signatures whose integers have leading zero octets, the corner of the fixed-width encodings (RFC 6605 s.4,
@@ -1423,6 +1628,33 @@ func (rc *recorder) variants(of, ci int, c *caseT, alg string, privs map[string]
 		s.F["OrigTtl"] = anyBytes(be32(0x12345678).Bytes())
 		forge("forge-origttl", s, key, mapSet(func(i int, a *wire.RR) { a.Ttl = be32(uint32(i)) }))
 	}
+	// ---- every pre-check of the statement falsified ALONE, everything else matching and the signature VALID over the
+	// specification's octets (signed by the standard library where the alteration changes the octets): the key's class, the
+	// RRset's class against the RRSIG's, the covered type, the key's algorithm (same key octets, same hash: only RSA has siblings)
+	{
+		classes := []int{3, 4, 254, 255, 0, 32769, 2, 256}
+		for j := 0; j < 3; j++ { // three per signature, rotating: every class within three signatures
+			k := clone(key)
+			k.Class = classes[(3*ci+j)%len(classes)]
+			chk("key-class", sig, k, base, false, "", alg) // same owner, flags, protocol, algorithm, key octets (hence tag)
+		}
+		k := clone(key)
+		k.Class = classes[(ci+int(hx.Seed()))%len(classes)]
+		forge("forge-key-class", sig, k, base)
+		s := clone(sig)
+		s.Class, k = 3, clone(key)
+		k.Class = 3
+		chk("class-rrsig-and-key", s, k, base, false, "", alg) // the class is not among the signed octets of the RRSIG: still a valid signature
+		forge("forge-class-rrset", sig, key, mapSet(func(i int, a *wire.RR) { a.Class = 3 }))
+		s = clone(sig)
+		s.F["TypeCovered"] = float64(intOf(sig.F["TypeCovered"]) ^ 1)
+		forge("forge-type-covered", s, key, base)
+		if sib, ok := map[int]int{5: 7, 8: 10, 10: 8}[an]; ok {
+			k := clone(key)
+			k.F["Algorithm"] = float64(sib)
+			forge("forge-key-algorithm", withTag(sig, k), k, base)
+		}
+	}
 	// ---- validity windows across the wrap of the 32-bit clock: Verify does not look at the period at all
 	for _, w := range [][2]uint32{{4293757696, 1209599}, {4294967295, 0}, {0, 0}, {100, 99}} {
 		s := clone(sig)
@@ -1652,13 +1884,15 @@ func main() {
 		if len(os.Args) < 8 {
 			hx.Die("usage: dnssec record <layout> <events> <keys> <n> <algs> <flipEvery> [only]")
 		}
-		n, _ := strconv.Atoi(os.Args[5])
+		ns, bs, _ := strings.Cut(os.Args[5], "+") // "<n>" or "<n>+<nbig>"
+		n, _ := strconv.Atoi(ns)
+		nbig, _ := strconv.Atoi(bs)
 		fe, _ := strconv.Atoi(os.Args[7])
 		only := -1
 		if len(os.Args) > 8 {
 			only, _ = strconv.Atoi(os.Args[8])
 		}
-		record(os.Args[3], os.Args[4], n, strings.Split(os.Args[6], ","), fe, only)
+		record(os.Args[3], os.Args[4], n, nbig, strings.Split(os.Args[6], ","), fe, only)
 	case "finish":
 		if len(os.Args) < 7 {
 			hx.Die("usage: dnssec finish <layout> <events> <emit> <keys> <verify>")
